@@ -271,6 +271,11 @@ func (g *GenCfg) genNode(r *RNG, goType string, depth int, embedded bool) T {
 					z = int64(1+r.Intn(18)) * []int64{10, 100, 1000}[r.Intn(3)] * 1000000
 				}
 			}
+			if r.Chance(12) {
+				// one significant digit far from the point on either side (2000000, 0.00003): the numbers whose shortest
+				// text is in exponent form
+				z = int64(1+r.Intn(9)) * []int64{1, 10, 1000000 * 1000000, 1000000 * 10000000, 1000000 * 1000000000}[r.Intn(5)]
+			}
 			if g.Negatives && r.Chance(40) {
 				z = -z
 			}
